@@ -1,6 +1,7 @@
 package sim
 
 import (
+	"errors"
 	"fmt"
 
 	"github.com/ipfs/go-cid"
@@ -20,6 +21,10 @@ type c10 struct {
 	kinds  []string
 	pause  bool // the genuine response is paused by a block hook for a while (so that "paused" is among the phases hit)
 	paused bool
+	// the other peer may also come first: its request under the ID is refused (or served)
+	// before the first peer's request with the same ID arrives
+	early   bool
+	refuseT bool
 }
 
 func newC10() Scenario { return &c10{c02: c02{prop: "C10"}} }
@@ -55,10 +60,22 @@ func (s *c10) Build(w *World) {
 	s.b.OnRequestUpdated = func(p peer.ID, r graphsync.RequestData, u graphsync.RequestData, a graphsync.RequestUpdatedHookActions) {
 		a.SendExtensionData(graphsync.ExtensionData{Name: "sim/update-seen", Data: basicnode.NewString("u")})
 	}
+	s.early = t.Chance(300)
+	s.refuseT = t.Chance(500)
+	if s.refuseT {
+		s.b.OnIncomingRequest = func(p peer.ID, r graphsync.RequestData, a graphsync.IncomingRequestHookActions) {
+			if w.Net.Name(p) == "T" {
+				a.TerminateWithError(errors.New("sim: the other peer is not served"))
+			}
+		}
+	}
 	s.script = NewScript(w, "T")
 	// the quantifier is over request IDs in use by the first peer's responses:
 	// the second peer starts once the responder has the first peer's request
 	s.script.Ready = func(int) bool {
+		if s.early {
+			return true
+		}
 		s.b.mu.Lock()
 		defer s.b.mu.Unlock()
 		for _, h := range s.b.Incoming {
@@ -95,7 +112,7 @@ func (s *c10) Build(w *World) {
 }
 
 func (s *c10) Describe(w *World) string {
-	return fmt.Sprintf("%s pause=%v intruder=%v", s.c02.Describe(w), s.pause, s.kinds)
+	return fmt.Sprintf("%s pause=%v intruder=%v early=%v refuseT=%v", s.c02.Describe(w), s.pause, s.kinds, s.early, s.refuseT)
 }
 
 func (s *c10) Done(w *World) bool {
@@ -114,7 +131,50 @@ func (s *c10) NextPhase(w *World, phase int) bool {
 	return true
 }
 
+// otherPeerResentID: the other peer sent a new request under the ID while its own
+// earlier request under that ID was still in the responder's table.
+func (s *c10) otherPeerResentID() bool {
+	var calls []int
+	for _, h := range s.b.Incoming {
+		if h.Req == s.req.ID && h.Peer == "T" {
+			calls = append(calls, h.Step)
+		}
+	}
+	retired := func(from, to int) bool {
+		for _, l := range [][]RespEvent{s.b.Completed, s.b.Cancelled, s.b.NetErrs} {
+			for _, e := range l {
+				if e.Req == s.req.ID && e.Peer == "T" && e.Step >= from && e.Step <= to {
+					return true
+				}
+			}
+		}
+		return false
+	}
+	for i := 1; i < len(calls); i++ {
+		if !retired(calls[i-1], calls[i]) {
+			return true
+		}
+	}
+	return false
+}
+
 func (s *c10) Final(w *World) *Violation {
+	if s.early {
+		// the ID was in use by the other peer when the first peer's request arrived: that
+		// request is not served at all (first user of an ID keeps it until retired), so
+		// there is no response to the first peer that could be altered
+		seen := false
+		for _, h := range s.b.Incoming {
+			if h.Req == s.req.ID && h.Peer == "A" {
+				seen = true
+			}
+		}
+		if !seen {
+			w.Probe("c10-first-peer-request-ignored-id-in-use")
+			return nil
+		}
+		w.Probe("c10-other-peer-first")
+	}
 	// R2: listener outcomes for A's response: completed once, successfully; never cancelled
 	nCompleted, nCancelled := 0, 0
 	var st graphsync.ResponseStatusCode
@@ -147,6 +207,11 @@ func (s *c10) Final(w *World) *Violation {
 	if v := checkSingle("C10", s.req, s.dag, s.sel, s.split, s.a.Store.Snapshot()); v != nil {
 		v.Rule = "R1"
 		v.Signature = "response-to-first-peer-changed:" + v.Signature
+		if s.otherPeerResentID() {
+			// input class of a recorded finding (the one recorded under C23): a new request
+			// re-using an ID its sender's own response still holds replaces that table entry
+			v.Signature = "other-peer-resent-id-in-use:" + v.Signature
+		}
 		return v
 	}
 	// (a response paused after the requestor already had everything it needed is
